@@ -14,6 +14,8 @@ var Plans = map[string][]PlanItem{
 	"C08": {{Scen: "dictionary", Quick: 8000, Thorough: 500000}},
 	"C18": {{Scen: "dmt", Quick: 8000, Thorough: 500000}},
 	"C13": {{Scen: "reuse", Quick: 8000, Thorough: 500000}},
+	"C15": {{Scen: "immutability", Quick: 2000, Thorough: 200000}},
+	"C17": {{Scen: "tree", Quick: 3000, Thorough: 200000}},
 	"C11": {{Scen: "world", Quick: 3000, Thorough: 150000}},
 	"C16": {{Scen: "world", Quick: 4000, Thorough: 250000}},
 }
